@@ -1,12 +1,34 @@
 //! vcheck — one binary, one subcommand per property (c01 … c20).
-#![allow(clippy::type_complexity)]
 
-#[macro_use]
-pub mod core;
-pub mod clock;
-pub mod checks;
+use vcheck::core::{self, Cli, Tier};
+use vcheck::{checks, clock};
 
-use core::{Cli, Tier};
+/// Interposed `clock_gettime`: identity by default; while a simulation on *this thread* is in
+/// virtual mode, the monotonic and realtime clocks follow the simulation (see clock.rs).
+///
+/// # Safety
+/// Called by libc users with a valid `timespec` pointer, as the libc function it replaces.
+#[no_mangle]
+pub unsafe extern "C" fn clock_gettime(clk: libc::clockid_t, ts: *mut libc::timespec) -> libc::c_int {
+    if let Some((secs, nanos)) = clock::virtual_timespec(clk) {
+        if !ts.is_null() {
+            (*ts).tv_sec = secs;
+            (*ts).tv_nsec = nanos;
+        }
+        return 0;
+    }
+    libc::syscall(libc::SYS_clock_gettime, clk as libc::c_long, ts) as libc::c_int
+}
+
+/// the simulated runtime is only sound if std's clocks really go through the interposer
+fn interposition_self_test() -> bool {
+    let _g = clock::VirtualClock::start(1_700_000_000);
+    let a = std::time::Instant::now();
+    clock::set_virtual_nanos(5_000_000_000);
+    let b = std::time::Instant::now();
+    let wall = std::time::SystemTime::now().duration_since(std::time::UNIX_EPOCH).map(|d| d.as_secs()).unwrap_or(0);
+    b.duration_since(a) == std::time::Duration::from_secs(5) && wall == 1_700_000_005
+}
 
 fn usage() -> ! {
     eprintln!("usage: vcheck <C01..C20> [--tier quick|thorough] [--replay FILE] [--sub NAME] [--scale F] [--strict] [--no-evidence]");
@@ -15,6 +37,10 @@ fn usage() -> ! {
 
 fn main() {
     core::install_panic_hook();
+    if !interposition_self_test() {
+        eprintln!("INCONCLUSIVE: clock_gettime interposition is not effective in this build");
+        std::process::exit(2);
+    }
     let mut args = std::env::args().skip(1);
     let Some(id) = args.next() else { usage() };
     let id = id.to_uppercase();
@@ -74,6 +100,3 @@ fn main() {
     let code = core::run_check(check, &cli);
     std::process::exit(code);
 }
-pub mod gen;
-pub mod refm;
-pub mod sim;
